@@ -16,7 +16,7 @@ func init() {
 		ID: "C15",
 		Explanation: "Decides structural necessary conditions of C15: (R-C15-1) level trigger: every watcher is created with a ready channel of constant capacity >= 1 and notify sends on it only inside a select with a default (never blocks the poller; a pending notification is never lost, further ones coalesce); " +
 			"(R-C15-2) in the apply phase every notify for a name is dominated by the install for that same name within the same critical section, and every installing iteration reaches the notification loop over that name's watchers; (R-C15-3) registration: the watcher is appended to the watcher list of the looked-up name under the lock and wraps the handle of that same name; NewUpdater builds its initial value from the watcher it registered (so an install between registration and first read is either seen or signalled); " +
-			"(R-C15-4) Updater.value and Updater.err are accessed only with Updater.mu held; (R-C15-5) rebuild discipline in Updater.Get: the builder runs only on the ready edge of a non-blocking receive from the watcher, with the watcher's current bytes; the store to value and the Close of the previous value are edge-dominated by the builder's nil error; what is closed is the value loaded before the store, never the new one, at most once; err is stored on both edges; the result is the field's value after the update.",
+			"(R-C15-4) Updater.value and Updater.err are accessed only with Updater.mu held; (R-C15-5) rebuild discipline in Updater.Get: the builder runs only on the ready edge of a non-blocking receive from the watcher, with the watcher's current bytes; the store to value and the Close of the previous value are edge-dominated by the builder's nil error; what is closed is the value loaded before the store, never the new one, at most once; err is stored on both edges; the result is the field's value after the update. (R-C15-6) inside the client library every receive from a watcher's ready channel lies in Updater.Get or a helper of it (a notification is consumed only where it triggers the rebuild).",
 		NotDecided:  "Sequences of values observed over histories; that a user-supplied builder is deterministic.",
 		Trusted:     commonTrusted,
 		Assumptions: []string{"a buffered channel of capacity >= 1 with non-blocking sends keeps at least one pending notification"},
@@ -341,6 +341,7 @@ func runC15(c *eng.Ctx, tier string) {
 		c.Undecided("R-C15-4", nil, 0, "accesses of Updater.value/err", "fewer than 4 found")
 	}
 	c15Get(c)
+	c15Receives(c)
 }
 
 func c15Get(c *eng.Ctx) {
@@ -521,4 +522,59 @@ func c15Get(c *eng.Ctx) {
 func isBuilderType(t types.Type) bool {
 	sg, ok := t.Underlying().(*types.Signature)
 	return ok && sg.Params().Len() == 1 && isByteSlice(sg.Params().At(0).Type()) && sg.Results().Len() == 2 && eng.IsErrorType(sg.Results().At(1).Type())
+}
+
+// c15Receives: R-C15-6.  A pending notification is consumed only where it
+// triggers a rebuild: inside the client library every receive from a
+// watcher's ready channel (the field, or what Ready() returns) lies in
+// Updater.Get or a helper of it.  A receive anywhere else (draining the
+// channel in the constructor, say) throws away the only record that the
+// secret changed after the value was built.
+func c15Receives(c *eng.Ctx) {
+	p := c.P
+	get := p.Method(setecPkg, "Updater", "Get")
+	if get == nil {
+		return
+	}
+	region := map[*ssa.Function]bool{}
+	eng.InstrsDeep(get, func(g *ssa.Function, _ ssa.Instruction) { region[g] = true })
+	isReady := func(ch ssa.Value) bool {
+		if call, _ := eng.TupleCall(ch); call != nil && eng.CalleeIs(&call.Call, setecPkg, "watcher.Ready") {
+			return true
+		}
+		fr, _, isF := eng.LoadedField(ch)
+		return isF && fr.Is(setecPkg, "watcher", watcherChanField(p))
+	}
+	n := 0
+	for _, f := range p.PkgFuncs(setecPkg) {
+		eng.Instrs(f, func(in ssa.Instruction) {
+			var chans []ssa.Value
+			switch x := in.(type) {
+			case *ssa.Select:
+				for _, st := range x.States {
+					if st.Dir == types.RecvOnly {
+						chans = append(chans, st.Chan)
+					}
+				}
+			case *ssa.UnOp:
+				if x.Op == token.ARROW {
+					chans = append(chans, x.X)
+				}
+			case *ssa.Range:
+				if _, isCh := x.X.Type().Underlying().(*types.Chan); isCh {
+					chans = append(chans, x.X)
+				}
+			}
+			for _, ch := range chans {
+				if !isReady(ch) {
+					continue
+				}
+				n++
+				c.Check(region[f] || region[eng.Outer(f)], "R-C15-6", f, in.Pos(), "receive from a watcher's ready channel in "+eng.FName(f), "a notification is consumed only by Updater.Get, where it triggers the rebuild", "consumed elsewhere: the update it announced is never seen by the updater")
+			}
+		})
+	}
+	if n == 0 {
+		c.Undecided("R-C15-6", get, get.Pos(), "receives from the ready channel", "none found")
+	}
 }
